@@ -620,9 +620,167 @@ fn gen_proxy(s: &mut Src<'_>) -> ProxyCase {
     }
 }
 
+// --------------------------------------------------------------------------------------------
+// a worker leaves in the middle of the run (while nothing is in flight)
+
+#[derive(Debug, Clone, Serialize, Deserialize, PartialEq, Eq, Hash)]
+pub struct WorkerLeavesCase {
+    /// workers on the back side (2..=4)
+    pub workers: usize,
+    /// requests before / after the departure
+    pub before: usize,
+    pub after: usize,
+    pub leaver: usize,
+    /// the worker's connection is reset (true) or closed in an orderly way (false)
+    pub reset: bool,
+}
+
+pub fn worker_leaves_outcome(c: &WorkerLeavesCase) -> Outcome {
+    let mut o = Outcome::new(hash_of(c));
+    o.nontrivial = true;
+    o.class("worker-leaves-mid-run");
+    let c2 = c.clone();
+    let (r, panics) = capture_panics(|| {
+        run_sim(async move {
+            let c = c2;
+            let mut f: Vec<Failure> = vec![];
+            let mut sim = Sim::new();
+            let front = sim.socket(Kind::Router, None);
+            let back = sim.socket(Kind::Dealer, None);
+            let client = sim.link();
+            client.raw_handshake("DEALER", Some(b"cl"));
+            let a = sim.attach(front, &client);
+            if !matches!(sim.run(a).await, Ok(Some(Out::Attach(Ok(_))))) {
+                fail!(f, "C15/setup", "client handshake");
+                return f;
+            }
+            let nw = c.workers.clamp(2, 4);
+            let mut workers: Vec<(Link, usize, bool)> = vec![]; // link, echoed, gone
+            for _ in 0..nw {
+                let l = sim.link();
+                l.raw_handshake("REP", None);
+                let a = sim.attach(back, &l);
+                if !matches!(sim.run(a).await, Ok(Some(Out::Attach(Ok(_))))) {
+                    fail!(f, "C15/setup", "worker handshake");
+                    return f;
+                }
+                workers.push((l, 0, false));
+            }
+            let proxy = sim.proxy(front, back, None);
+            // run everything until nothing moves any more; live workers echo what they get
+            macro_rules! pump {
+                () => {{
+                    for _ in 0..60 {
+                        let mut moved = false;
+                        if client.to_lib.deliver_all() > 0 {
+                            moved = true;
+                        }
+                        for w in workers.iter() {
+                            if w.0.to_lib.deliver_all() > 0 {
+                                moved = true;
+                            }
+                        }
+                        if sim.settle().await.is_err() {
+                            fail!(f, "C15/spin", "the proxy does not settle");
+                            return f;
+                        }
+                        for w in workers.iter_mut() {
+                            if w.2 {
+                                continue;
+                            }
+                            if let Ok((msgs, _)) = w.0.lib_messages_prefix() {
+                                while w.1 < msgs.len() {
+                                    let mut e = msgs[w.1].clone();
+                                    e.push(b"!".to_vec());
+                                    w.0.raw_send(&e);
+                                    w.1 += 1;
+                                    moved = true;
+                                }
+                            }
+                        }
+                        if !moved {
+                            break;
+                        }
+                    }
+                }};
+            }
+            let mut sent = 0usize;
+            for _ in 0..c.before {
+                client.raw_send(&[vec![], format!("req-{}", sent).into_bytes()]);
+                sent += 1;
+                pump!();
+            }
+            let got = client.lib_messages().map(|m| m.len()).unwrap_or(0);
+            if got != sent {
+                fail!(f, "C15/back-to-front-reply-lost", "{} requests, {} replies before any worker left", sent, got);
+                return f;
+            }
+            // the worker leaves while nothing is in flight; the proxy gets to see it
+            let lv = c.leaver % nw;
+            workers[lv].0.to_lib.end_after_all(if c.reset { crate::pipe::ReadEnd::Err(std::io::ErrorKind::ConnectionReset) } else { crate::pipe::ReadEnd::Eof });
+            workers[lv].2 = true;
+            pump!();
+            let leaver_wire = workers[lv].0.lib_traffic_len();
+            for _ in 0..c.after {
+                client.raw_send(&[vec![], format!("req-{}", sent).into_bytes()]);
+                sent += 1;
+                pump!();
+            }
+            if sim.done(proxy) {
+                if c.reset {
+                    // a read ERROR on one side makes recv fail, and proxy() returns with that
+                    // error by design: the statement speaks of a proxy that runs
+                    return f;
+                }
+                fail!(f, "C15/proxy-terminated", "proxy() returned after a worker closed its connection: {:?}", sim.out(proxy));
+            }
+            if workers[lv].0.lib_traffic_len() != leaver_wire {
+                fail!(f, "C15/forwarded-to-a-departed-worker", "{} bytes were written to the worker that had left (and whose departure the back socket had been shown) - those requests are lost", workers[lv].0.lib_traffic_len() - leaver_wire);
+            }
+            match client.lib_messages() {
+                Ok(m) => {
+                    let want: Vec<Frames> = (0..sent).map(|i| vec![vec![], format!("req-{}", i).into_bytes(), b"!".to_vec()]).collect();
+                    let mut g = m.clone();
+                    let mut w = want.clone();
+                    g.sort();
+                    w.sort();
+                    if g != w {
+                        let sig = if m.len() < want.len() { "back-to-front-reply-lost" } else { "back-to-front-reply-modified-or-misrouted" };
+                        fail!(f, format!("C15/{}", sig), "{} requests ({} of them after worker {} of {} had left), the client received {} replies", sent, c.after, lv, nw, m.len());
+                    }
+                }
+                Err(e) => fail!(f, "C15/wire-malformed", "client: {}", e),
+            }
+            f
+        })
+    });
+    if let Some(f) = r {
+        o.failures = f;
+    }
+    for p in panics {
+        o.fail(format!("C15/panic/{}", panic_sig(&p)), p);
+    }
+    o
+}
+
 pub fn run(ctx: &Ctx) -> (Report, PropertyMeta) {
     let mut report = Report::default();
     let t = ctx.tier;
+    {
+        let mut wc = vec![];
+        for workers in 2..=4usize {
+            for leaver in 0..workers {
+                for reset in [false, true] {
+                    for (before, after) in [(0usize, 4usize), (1, 5), (workers, 2 * workers + 1), (2 * workers + 1, 9)] {
+                        wc.push(WorkerLeavesCase { workers, before, after, leaver, reset });
+                    }
+                }
+            }
+        }
+        let r = run_cases(ctx, "worker_leaves", &wc, worker_leaves_outcome);
+        report.exhaustive_parts.push(format!("proxy(ROUTER, DEALER) with a pipelining client and 2..4 echo workers, each worker leaving (closed / reset) while nothing is in flight, 4 request counts before / after: {} cases", wc.len()));
+        report.merge(r);
+    }
     // enumerated small configurations
     let mut cases = vec![];
     for capture in [Capture::None, Capture::Push, Capture::Pub, Capture::Dealer] {
@@ -677,7 +835,7 @@ pub fn run(ctx: &Ctx) -> (Report, PropertyMeta) {
 
     let meta = PropertyMeta {
         level: "exploration",
-        rule: "zeromq::proxy(ROUTER, DEALER, capture) run as one stepped actor between 1..4 clients (raw DEALER pipelining its requests, raw REQ in lock-step, or library REQ sockets) and 1..3 workers (raw echo peers or library REP sockets), capture in {none, PUSH, PUB, DEALER} attached to a raw sink; requests are [delimiter, tag, 0..3 payload frames incl. empty and 70 KB] echoed with a suffix, or DEALER-style [tag, payload..] without delimiter echoed verbatim (so that two-frame messages [identity, tag] travel in both directions); generated schedule of actor steps and byte deliveries including deliveries on both sides between two proxy polls. Oracle (wire level, reference-decoded): the multiset of messages the back side wrote to the workers equals identity+request for every request, exactly once, per-client order preserved at each worker; every client's wire carries exactly the echoes of its own requests (in order for lock-step clients); library REQ clients get exactly their own replies in order; the capture stream is the multiset of all forwarded messages and every destination's sequence is a subsequence of it; proxy() is still running. Non-trivial = >= 2 clients, a multi-frame payload and at least one proxy poll with both sides fed; distinct by case".into(),
+        rule: "zeromq::proxy(ROUTER, DEALER, capture) run as one stepped actor between 1..4 clients (raw DEALER pipelining its requests, raw REQ in lock-step, or library REQ sockets) and 1..3 workers (raw echo peers or library REP sockets), capture in {none, PUSH, PUB, DEALER} attached to a raw sink; requests are [delimiter, tag, 0..3 payload frames incl. empty and 70 KB] echoed with a suffix, or DEALER-style [tag, payload..] without delimiter echoed verbatim (so that two-frame messages [identity, tag] travel in both directions); generated schedule of actor steps and byte deliveries including deliveries on both sides between two proxy polls. Oracle (wire level, reference-decoded): the multiset of messages the back side wrote to the workers equals identity+request for every request, exactly once, per-client order preserved at each worker; every client's wire carries exactly the echoes of its own requests (in order for lock-step clients); library REQ clients get exactly their own replies in order; the capture stream is the multiset of all forwarded messages and every destination's sequence is a subsequence of it; proxy() is still running; when a worker leaves while nothing is in flight (and the back socket is shown its departure) every later request is answered by the remaining workers and nothing is written to the departed one. Non-trivial = >= 2 clients, a multi-frame payload and at least one proxy poll with both sides fed; distinct by case".into(),
         assumptions: vec!["futures::select! picks among ready branches with an unseeded thread-local PRNG: it changes which legal interleaving runs, never the oracle".into()],
         exhaustive: false,
     };
@@ -686,6 +844,7 @@ pub fn run(ctx: &Ctx) -> (Report, PropertyMeta) {
 
 pub fn replay(_ctx: &Ctx, kind: &str, case: &Value) -> Vec<Failure> {
     match kind {
+        "worker_leaves" => parse_case::<WorkerLeavesCase>(case).map(|c| worker_leaves_outcome(&c).failures),
         "proxy" => parse_case::<ProxyCase>(case).map(|c| {
             // select!'s branch PRNG is not seeded: retry a few times, report the union
             let mut all: Vec<Failure> = vec![];
